@@ -71,8 +71,16 @@ THEOREMS = [
     "PV.Prog.annassign_paren_name_not_simple",
     "PV.Prog.match_subject_spec",
     "PV.Prog.match_subject_trailing_comma",
-    # (e) printer round trip on a fragment
+    # (e) printer round trip: all 28 statement kinds, 8 pattern kinds, over C11's extended expression fragment
     "PV.Prog.render_parse_partial",
+    "PV.Prog.render_parse_partial_ev",
+    "PV.Prog.inFragment_core_sub",
+    "PV.Prog.rtStmt",
+    "PV.Prog.rtBlock",
+    "PV.Prog.progRT",
+    "PV.Prog.rt_patterns",
+    "PV.Prog.rt_parameters",
+    "PV.Prog.afterClose_rx",
 ]
 TRUSTED = [
     "Lean 4.33.0 kernel; axioms limited to propext, Classical.choice, Quot.sound",
@@ -95,14 +103,16 @@ PARTIAL = [
     "the driver with exactly fuelFor",
     "parse_expr_stmt_agree is about acceptance for SOME (equivalently: every sufficiently large) fuel, on one-expression "
     "lines (ExprLine: no NEWLINE / `;` inside, not starting with `yield`); the exceptions are witnessed at the driver's fuel",
-    "(e) render_parse_partial covers Pass, Break, Continue, Expr, Return, If and While (non-empty bodies, optional else, "
-    "nested arbitrarily) over C11's expression fragment, in Module / Interactive / Expression mode, at token level and "
-    "for every sufficiently large fuel; the full statement render_parse_full (the other 20 statement forms, patterns) is "
-    "stated, not proved, and `render` prints nothing for those forms",
-    "the reference parser is tied to python.rs by correspondence only; outside its lexical domain (dropped from the "
-    "streams and counted in the notes): inside an f-string replacement field a line break, a `#`, or a non-ASCII "
-    "character that is not an identifier character; `f'{:spec}'` / `f'{=:spec}'` with an empty expression "
-    "(PV.C11.Spec.fstrField lacks the EmptyExpression check there)",
+    "(e) render_parse_partial covers all 28 statement kinds and all 8 pattern kinds (parameters of every kind with "
+    "annotations and defaults, with-items, type parameters, decorators) over C11's extended expression fragment "
+    "InFragmentX, in Module / Interactive / Expression mode, at token level and for every sufficiently large fuel (an "
+    "existential bound, not the driver's fuelFor).  Outside the fragment InFragmentP (render_parse_full is stated, not "
+    "proved): every tree that contains an f-string (JoinedStr / FormattedValue: outside C11's InFragmentX); and trees the "
+    "grammar cannot build (empty bodies, `_` as a capture name, a repeated keyword, …: the side conditions of inFragM). The "
+    "TEXT of the rendering (spacing, literal spelling, indentation) is tied to the real lexer and parser by the stream "
+    "`render-roundtrip` of this run, not by the theorem",
+    "the reference parser is tied to python.rs by correspondence only (no text is dropped from the streams any more: the "
+    "former exclusions for f-string fields became obsolete with C11's model repair)",
 ]
 RULE = ("one request = one source text x one mode; both sides answer with the canonical range-erased, ctx-erased tree or "
         "`parse-error`; byte-identical answers required")
@@ -167,53 +177,11 @@ def fix_attachment(att):
     return ",".join(items)
 
 
-def _field_outside_model(body):
-    """an f-string body with (a) a line break, a `#` or a non-ASCII character that is not an identifier character inside a
-    replacement field or (b) a field whose expression part is blank and followed by a format spec, `=` or a conversion (`{:x}`, `{=:x}`)"""
-    depth = 0
-    i = 0
-    n = len(body)
-    while i < n:
-        c = body[i]
-        if c == "{":
-            if depth == 0 and i + 1 < n and body[i + 1] == "{":
-                i += 2
-                continue
-            depth += 1
-            j = i + 1
-            while j < n and body[j] in " \t\n\r\x0c":
-                j += 1
-            if j < n and body[j] in ":=!":
-                return True
-        elif c == "}":
-            if depth > 0:
-                depth -= 1
-            elif i + 1 < n and body[i + 1] == "}":
-                i += 2
-                continue
-        elif c in "\n\r#" and depth > 0:
-            return True
-        elif depth > 0 and ord(c) > 127 and not ("a" + c).isidentifier():
-            return True
-        i += 1
-    return False
-
-
 def outside_domain(att):
-    """Token streams the EXPRESSION model (PV.C11.Spec, shared, not edited here) cannot take the way string.rs does:
-    (a) its reference tokenizer reads the text of an f-string replacement field BEFORE it is wrapped in parentheses, so a
-        line break inside a field is a logical newline to it and a `#` comment does not swallow the closing parenthesis
-        (string.rs wraps first: `f"{#}"` is an error there, `()` for the model); it also takes every non-ASCII character
-        for an identifier character (the real lexer asks the XID tables);
-    (b) `fstrField` has no EmptyExpression check when a format spec follows: `f'{:x}'` is read as FormattedValue(())
-        where string.rs rejects.
-    Such requests are dropped and counted (reported to the lead as a defect of PV.C11.Spec's f-string part)."""
-    if "sf" not in att and "sR" not in att:
-        return False
-    for it in att.split(","):
-        if it[:2] in ("sf", "sR"):
-            if _field_outside_model(unhex(it[3:]).decode("utf-8")):
-                return True
+    """No request is outside the model's lexical domain any more.  (Until C11's model repair — `scanField` EmptyExpression
+    check at a format spec, `fstrField` lexing the field text inside its parentheses, XID tables in `PV.C11.lex`; see
+    design/C11.md "Corrections" — f-string fields with a line break, a `#`, a non-identifier non-ASCII character, and
+    `f'{:x}'` had to be dropped here.  Re-verified with the exclusion off: quick and thorough tier, 0 disagreements.)"""
     return False
 
 
@@ -235,6 +203,50 @@ def requests_for(items, jobs=8, keep_all=False):
             DROPPED["n"] += 1
             continue
         out.append("prog %s %s %s" % (m, hexs(s), fix_attachment(a)))
+    return out
+
+
+_SOFT_NAMES = {"n" + hexs(w) for w in ("match", "case", "type")}
+
+
+RT_STATS = {}
+
+
+def render_requests(items, jobs=8, stats=None):
+    """items: [(mode, source text)] -> request lines `rt <mode> <hex src> <att> <hex rendered> <att of rendered>` for the
+    items whose tree lies in the fragment of the proved printer round trip.  Three passes: the real tokens of the source
+    (harness `toks`), the rendering of the tree by the Lean printer (driver `render`), the real tokens of the rendering."""
+    stats = stats if stats is not None else {}
+    base = requests_for(items, jobs=jobs)
+    if not base:
+        return []
+    drv = core.driver_path(DRIVER)
+    ren = core.run_lines([drv], ["render" + r[4:] for r in base], jobs=jobs)
+    keep = []
+    for r, a in zip(base, ren):
+        if a.startswith("R "):
+            k, t = a[2:].split(" ")
+            keep.append((r, t, int(k)))
+        else:
+            k = "rejected" if a == "parse-error" else ("outside-fragment" if a == "outside" else "other")
+            stats[k] = stats.get(k, 0) + 1
+    if not keep:
+        return []
+    hbin = _bin()
+    pre = core.run_lines([hbin], ["toks %s %s" % (r.split()[1], t) for r, t, _ in keep], jobs=jobs)
+    out = []
+    for (r, t, k), a in zip(keep, pre):
+        if not a or a.startswith("(") or a == "bad-request":
+            a = "E"
+        if k and sum(1 for it in a.split(",") if it in _SOFT_NAMES) != k:
+            # the printer puts every statement on its own line: a `match` / `case` / `type` used as a NAME that stood in
+            # mid-line may come to stand first, and the real soft-keyword pass then takes it for the keyword (`case[0]: int`):
+            # C01's open finding `soft-keyword-colon-heuristic`, not the printer's matter
+            stats["soft-keyword-placement"] = stats.get("soft-keyword-placement", 0) + 1
+            continue
+        ws = r.split()
+        out.append("rt %s %s %s %s %s" % (ws[1], ws[2], ws[3] if len(ws) > 3 else "-", t, fix_attachment(a)))
+    stats["rendered"] = stats.get("rendered", 0) + len(out)
     return out
 
 
@@ -283,9 +295,36 @@ def _stream(ctx, name, items, kind, note, exhaustive=False):
     before = DROPPED["n"]
     reqs = requests_for(items)
     if DROPPED["n"] > before:
-        note += " (%d texts dropped: f-string field with a line break, a `#`, or an empty expression before a format spec, see outside_domain)" % (DROPPED["n"] - before)
+        note += " (%d texts dropped, see outside_domain)" % (DROPPED["n"] - before)
     s = Stream(name, reqs, kind=kind, exhaustive=exhaustive, note=note)
     s.oracle = _counter(ctx, s, note)
+    return s
+
+
+def _render_stream(ctx, name, items):
+    """`rt` requests: the tree of a source text (when it lies in the fragment of PV.Prog.render_parse_partial) is printed by
+    the Lean printer `PV.Prog.render`; the REAL lexer and parser read that text; both sides' trees must be the original tree"""
+    stats = {}
+    reqs = render_requests(items, stats=stats)
+    note = ("the Lean printer against the real parser: of %d texts (corpus, generated programs of the three modes, small "
+            "stdlib files) %d are accepted and lie in the fragment of render_parse_partial; their tree is rendered by "
+            "PV.Prog.render (driver), the rendered TEXT is lexed and parsed by the real parser: it must give the original "
+            "tree (eq=1), the real token stream of the text must be exactly `render tree` (toks=1) | not rendered: %s"
+            % (len(items), len(reqs), ", ".join("%s %d" % kv for kv in sorted(stats.items()) if kv[0] != "rendered") or "-"))
+    s = Stream(name, reqs, kind="random", note=note)
+    c = {"n": 0, "eq": 0, "bad": 0}
+    ctx.extra.setdefault("prog_stream_counts", {})[name] = dict(stats, checked=c)
+
+    def oracle(req, out):
+        c["n"] += 1
+        if out.startswith("eq=1 text=1 toks=1 infrag=1 tree=("):
+            c["eq"] += 1
+            return None
+        c["bad"] += 1
+        ws = req.split()
+        return ("the rendering of the tree does not parse back to it with the real parser: source %r rendered %r answer %s"
+                % (unhex(ws[2]).decode("utf-8", "replace")[:300], unhex(ws[4]).decode("utf-8", "replace")[:300], out[:200]))
+    s.oracle = oracle
     return s
 
 
@@ -587,6 +626,17 @@ def streams(ctx):
     if not q:
         out.append(_stream(ctx, "stdlib-interactive", [("i", s) for _, s in std[::4]], "corpus", "every fourth stdlib file, Interactive mode"))
 
+    # the printer against the real lexer and parser
+    rq = 1 if q else 10
+    nf = {"fstrings": False}       # f-strings are outside the printer's fragment: most programs of these batches are inside
+    rt_items = (corpus + gm[:500 * rq] + gi[:150 * rq] + ge[:300 * rq] + gd[:40 * rq] +
+                generated(ctx, "gen-rt-m", 1600 * rq, "m", dict(nf, depth=3)) +
+                generated(ctx, "gen-rt-i", 300 * rq, "i", dict(nf, depth=3)) +
+                generated(ctx, "gen-rt-e", 500 * rq, "e", dict(nf, depth=4)) +
+                generated(ctx, "gen-rt-deep", 100 * rq, "m", dict(nf, depth=5, stmts=(1, 3))) +
+                [(m, s) for m, s in std if len(s) < (6000 if q else 40000)][:(150 if q else 1200)])
+    out.append(_render_stream(ctx, "render-roundtrip", rt_items))
+
     small = [(m, s) for m, s in std if len(s) < 3000]
     pool = [("m", s) for s in VALID] + [("e", s) for s in EXPRESSIONS[:60]] + gm[:1500] + gi[:300] + ge[:500] + small[:150]
     mut = mutation_items(ctx, "mutations", pool, 12000 if q else 200000)
@@ -623,6 +673,9 @@ def search(ctx, disagreements, bins):
     best = None
     for e in disagreements[:4]:
         mode, src, _ = split_request(e["request"])
+        if e["request"].startswith("rt "):
+            # the printer stream: the text both sides disagree about is the RENDERED text
+            src = unhex(e["request"].split()[4]).decode("utf-8")
 
         def differs(t):
             try:
